@@ -7,9 +7,24 @@ BASELINE_OFF = ("cd /repo && cargo nextest run --workspace --no-fail-fast --tool
 
 # id -> (level category, technique, level text, level note, design ref)
 CLAIMED = {
+    "C01": ("exploration", "property-based testing: generated circuit programs (60 gadget ops) x generated admissible configs, differential against a reference interpreter over the field",
+            "Hundreds (quick) to thousands (thorough) of generated (config, program, inputs) cases are built, proved and verified with the real API; public inputs are compared with an independent interpretation of the same program; a second independent build must accept the proof.",
+            "Reference interpreter trusts Goldilocks field arithmetic (C14) and native Poseidon hashing (C13). Prover salts are unseeded (OsRng).", "§C01"),
+    "C03": ("fault_enumeration", "property-based fault injection: value/shape edits over the serde tree of accepted proofs (plain + compressed), other-circuit verifier data; oracle = verifier must not accept",
+            "For each generated accepted proof, sampled (quick) or all (thorough, proofs up to 12k leaves) element positions are edited (+1, -1, 0, random canonical value), every container is shape-edited, and a different circuit's verifier data is presented; acceptance of any of these is a violation. Exhaustive per proof in thorough mode, sampled over proofs.",
+            "Rejections that rely on Fiat-Shamir re-randomisation are asserted only with >= 48 bits of FRI margin; edits of the compressed proof's redundant index list are exempt as the statement says.", "§C03"),
+    "C12": ("exploration", "model-based property testing: independent reference Merkle tree / batch tree / path-compression models, negative catalogue, rayon pools of 1/2/3/16 threads",
+            "Tens of thousands of generated trees (Poseidon and Keccak, all cap heights, leaf widths around the digest size, duplicate leaves, batch trees of 1-4 heights, index multisets) compared with a textbook reference; every negative (other leaf/index, altered sibling or cap entry, malformed path) must give the reference verdict; construction repeated under different thread counts.",
+            "hash_or_noop/two_to_one are taken from the library (judged by C13); scheduling is varied by pool size and repetition only.", "§C12"),
     "C14": ("exploration", "property-based differential testing against u128/BigUint reference arithmetic, boundary-biased operand generators, scalar + debug-assert + AVX-512 builds",
             "Millions of generated operand tuples per run (boundary-biased over all 64-bit representations, correlated pairs that reach the double-overflow / borrow branches) compared with exact u128 / schoolbook reference arithmetic, on scalar, debug-assertion and SIMD builds. Sampling, not exhaustive over 2^128 pairs.",
             "Trusts Rust u128 arithmetic and num::BigUint as the oracle; packed code reached through Packable::Packing as production code does.", "§C14"),
+    "C16": ("exploration", "property-based round-trip and metamorphic testing of proof compression on small FRI domains with many queries (collisions forced), plus edited inputs",
+            "Generated accepted proofs on small domains with up to 40 queries, so repeated indices and shared cosets at every depth are common (counted from the public challenges): decompress(compress(p)) == p, compress(decompress(c)) == c, byte round trip, verify_compressed accepts; for value-edited inputs verify_compressed(c*) == verify(decompress(c*)).",
+            "Equivalence for edited inputs is stated on the same information (after compression), because compression legitimately discards redundant siblings.", "§C16"),
+    "C18": ("exploration", "property-based + mutation fuzzing of proof values (serde-tree shape/range edits) and of byte encodings (9 byte mutators), panic capture and allocation probe as oracles",
+            "Shape edits of every container (thorough) / sampled (quick), out-of-range numbers and map-key edits on plain and compressed proofs handed to verify / verify_compressed / decompress; tens of thousands of mutated encodings handed to both decoders and then the verifiers. A panic, an oversized allocation, or Ok for a value that is not field-equal to the valid proof is a violation.",
+            "Release build is the reference (debug assertions off). STARK entry points are covered once the STARK generator lands (see notes). Allocation bound probed on the decoding thread.", "§C18"),
 }
 PENDING_REASON = "check not implemented yet in this round (work in progress; see DESIGN.md §6 for the order of work)"
 
